@@ -43,7 +43,7 @@ manifest = {
     "engines": [
         {"name": "symx", "path": "/verif/symx", "serves_properties": sorted(meta["claimed"]),
          "kind_free_text": "symbolic execution of the unmodified Python source with a solver-backed jax model; z3 + cvc5"},
-        {"name": "crosshair", "path": "/verif/ch", "serves_properties": ["C02", "C03", "C16"],
+        {"name": "crosshair", "path": "/verif/ch", "serves_properties": ["C02", "C03", "C10", "C16"],
          "kind_free_text": "CrossHair 0.0.110 (symbolic execution of Python with z3): the interpreter's dispatch with a symbolic str "
                            "(C16), the einsum string generators with symbolic sizes / positions / permutations (C02, C03)"},
     ],
